@@ -32,6 +32,8 @@ func main() {
 		os.Exit(replay(os.Args[2:]))
 	case "selftest":
 		os.Exit(selftest(os.Args[2:]))
+	case "gen":
+		os.Exit(gen(os.Args[2:]))
 	default:
 		usage()
 	}
@@ -161,4 +163,19 @@ func replay(args []string) int {
 	}
 	fmt.Println("obligation no longer present on the current tree")
 	return 0
+}
+
+// gen prints tables derived from the current tree for review (never used by checks directly).
+func gen(args []string) int {
+	if len(args) < 1 {
+		usage()
+	}
+	p, err := core.Load(core.LoadOptions{Dir: "/repo/teamserver"})
+	if err != nil {
+		fmt.Println("BROKEN: load:", err)
+		return 2
+	}
+	rep, _ := core.NewReport(os.TempDir(), "gen", "quick", 0)
+	ctx := &rules.Ctx{P: p, R: rep, Repo: "/repo", Verif: "/verif"}
+	return rules.Gen(ctx, args[0])
 }
